@@ -310,10 +310,16 @@ func (s *Stream) close() error {
 			if s.session.IsClosed() {
 				return nil
 			}
-			// notify peer
-			err := s.session.sendQueue().put(queueElement{seqID: s.id, status: uint32(streamClosed)})
-			if err != nil {
-				atomic.AddUint64(&s.session.stats.queueFullErrorCount, 1)
+			// notify peer. Once the stream's data travels on the connection (fallback state),
+			// the close notification must follow it there, otherwise it could overtake the data.
+			viaConnection := s.inFallbackState
+			if !viaConnection {
+				if err := s.session.sendQueue().put(queueElement{seqID: s.id, status: uint32(streamClosed)}); err != nil {
+					atomic.AddUint64(&s.session.stats.queueFullErrorCount, 1)
+					viaConnection = true
+				}
+			}
+			if viaConnection {
 				// notify fallback
 				var streamCloseEvent [headerSize + 4]byte
 				header(streamCloseEvent[:]).encode(headerSize+4, s.session.communicationVersion, typeStreamClose)
